@@ -224,6 +224,17 @@ func (c *Client) sendRepublishRequests(ctx context.Context, sub *Subscription, a
 				c.notifySubscription(ctx, sub, res.NotificationMessage)
 				sub.lastSeq = res.NotificationMessage.SequenceNumber
 				sub.nextSeq = sub.lastSeq + 1
+				// a republished notification stays in the server's retransmission
+				// queue until it is acknowledged: acknowledge it with the next
+				// PublishRequest like a notification received through Publish
+				if len(res.NotificationMessage.NotificationData) > 0 {
+					c.subMux.Lock()
+					c.pendingAcks = append(c.pendingAcks, &ua.SubscriptionAcknowledgement{
+						SubscriptionID: sub.SubscriptionID,
+						SequenceNumber: res.NotificationMessage.SequenceNumber,
+					})
+					c.subMux.Unlock()
+				}
 				debug.Printf("Republished notification %d for subscription %d", res.NotificationMessage.SequenceNumber, sub.SubscriptionID)
 
 				if len(availableSeq) > 0 && !slices.Contains(availableSeq, sub.nextSeq) {
